@@ -132,8 +132,8 @@ void Log::debugLog(std::string&& buf) {
   }
 
   auto* q = state_.getCurrentQueue();
-  q->emplace_back(std::move(buf));
   state_.curSize += buf.size();
+  q->emplace_back(std::move(buf));
   state_.cv.notify_one();
 }
 
@@ -143,6 +143,7 @@ void Log::ioThread(std::ostream& debug_sink) {
   while (io_thread_running) {
     std::vector<std::string>* q = nullptr;
     size_t numDiscarded;
+    size_t batchSize;
 
     // Swap the rx/tx queues
     {
@@ -156,7 +157,9 @@ void Log::ioThread(std::ostream& debug_sink) {
       io_thread_running = state_.ioThreadRunning;
       numDiscarded = state_.numDiscarded;
 
-      state_.curSize = 0;
+      // The batch we are about to write still counts against maxSize until
+      // it has reached the sink
+      batchSize = state_.curSize;
       state_.numDiscarded = 0;
       state_.ioTick++; // flips the last bit that getCurrentQueue uses
     }
@@ -173,6 +176,11 @@ void Log::ioThread(std::ostream& debug_sink) {
 
     // clear() doesn't shrink capacity, only invalidates contents
     q->clear();
+
+    {
+      std::unique_lock<std::mutex> lock(state_.lock);
+      state_.curSize -= batchSize;
+    }
   }
 }
 
